@@ -54,6 +54,10 @@ Additional tables (all explicit; what is in no table is Unsupported, the caller 
   objects  [name]     locals that hold opaque objects (a packet).  They are bound only by `x = yield <request>`, are
            mentioned only inside listed observation / effect patterns (`packet.size`, `self.out.put(packet)`), and every
            such mention is checked to be on a path where the name is bound (in the frame or bound since)
+  binds    {effect constructor: object local}    the listed effect is an assignment that CREATES the object
+           (`packet = Packet(env.now, self.size_dist(), self.packets_send, ..)` with holes for the arguments): afterwards the
+           local is bound.  A listed draw inside an argument of an effect or of a request (`env.timeout(self.arrival_dist())`)
+           is consumed before it
   sees     {effect constructor: [state attrs]}    the constructor additionally carries the CURRENT values of these state
            fields at the moment of the effect: what the callee could observe of this object while it is being called
            (`self.out.put(packet)` while busy = 1 and byte_size already decremented)
@@ -101,7 +105,7 @@ class _RaiseMark(ast.stmt):
 
 class GenSpec(FnSpec):
     def __init__(self, path, cls, method, name, requests=(), callouts=(), raises=(), objects=(), sees=None, interrupt=None,
-                 **kw):
+                 binds=None, **kw):
         for bad in ("select", "stateops", "bindings", "guards", "aliases", "decorator", "ret"):
             if bad in kw:
                 raise ValueError(f"GenSpec: {bad} is not supported for generator bodies")
@@ -111,6 +115,7 @@ class GenSpec(FnSpec):
         self.raises = [tuple(r) for r in raises]
         self.objects = list(objects)
         self.sees = dict(sees or {})
+        self.binds = dict(binds or {})
         self.interrupt = interrupt
 
 
@@ -170,7 +175,7 @@ class GenTr(FxTr):
     # ---- objects: mentioned only inside listed patterns, and only where bound ----------------------------------------
     def check_bound(self, node, env, what):
         for n in ast.walk(node):
-            if isinstance(n, ast.Name) and n.id in self.spec.objects:
+            if isinstance(n, ast.Name) and n.id in self.spec.objects and not isinstance(n.ctx, ast.Store):
                 v = env["vars"].get(("local", n.id))
                 if v is None or v.ty != "obj":
                     raise Unsupported(f"{what} `{ast.unparse(node)[:60]}` mentions {n.id} on a path where no object is bound to it")
@@ -198,15 +203,31 @@ class GenTr(FxTr):
                 names = sorted(binds, key=lambda n: int(n[1:]))
                 if len(names) != len(tys):
                     raise Unsupported(f"effect pattern of {con}: {len(names)} holes, {len(tys)} types")
-                args = [self.hole(binds[n], ty, env) for n, ty in zip(names, tys)]
+                env, nodes = self.hoist_holes([binds[n] for n in names], env)     # a draw in an argument comes first
+                args = [self.hole(nd, ty, env) for nd, ty in zip(nodes, tys)]
                 for attr in self.spec.sees.get(con, ()):         # what the callee can see of this object right now
                     args.append(env["vars"][("self", attr)].term)
                 env2 = self.copy(env)
                 env2["fx"][1].append(con if not args else "(" + " ".join([con] + args) + ")")
                 env2["stale"] |= {p for p in self.volatile if p not in keeps}
                 env2["done"].add(con)
+                if con in self.spec.binds:                       # `packet = Packet(..)`: the effect creates the object
+                    tgt = s.targets[0] if isinstance(s, ast.Assign) and len(s.targets) == 1 else None
+                    if not isinstance(tgt, ast.Name) or tgt.id != self.spec.binds[con]:
+                        raise Unsupported(f"effect {con} must be an assignment to the object local {self.spec.binds[con]}")
+                    env2["vars"][("local", tgt.id)] = V(None, "obj")
                 return env2
         return None
+
+    def hoist_holes(self, nodes, env):
+        """listed draws inside the arguments of an effect / request are consumed, left to right, before it"""
+        import copy as _copy
+        out = []
+        for nd in nodes:
+            if self.contains_draw(nd):
+                nd, env = self.hoist_draws(_copy.deepcopy(nd), env)        # (hoist_draws rewrites the tree it is given)
+            out.append(nd)
+        return env, out
 
     # ---- program points ---------------------------------------------------------------------------------------
     def callout_of(self, s):
@@ -383,7 +404,12 @@ class GenTr(FxTr):
             raise Unsupported(f"`{ast.unparse(s)[:60]}` is not a listed raise")
         if isinstance(s, ast.Assign) and len(s.targets) == 1 and isinstance(s.targets[0], ast.Name) \
                 and s.targets[0].id in self.spec.objects:
-            raise Unsupported(f"the object local {s.targets[0].id} is assigned other than by `= yield <request>`")
+            env2 = self.effect(s, env)
+            v = env2["vars"].get(("local", s.targets[0].id)) if env2 is not None else None
+            if env2 is None or v is None or v.ty != "obj" or not any(c in env2["done"] for c in self.spec.binds):
+                raise Unsupported(f"the object local {s.targets[0].id} is assigned other than by `= yield <request>` or a "
+                                  f"listed creating effect")
+            return self.block(rest, env2, k)
         return super().block(stmts, env, k)
 
     def do_yield(self, s, target, req, rest, env):
@@ -396,7 +422,8 @@ class GenTr(FxTr):
                 names = sorted(binds, key=lambda n: int(n[1:]))
                 if len(names) != len(tys):
                     raise Unsupported(f"request pattern of {con}: {len(names)} holes, {len(tys)} types")
-                args = [self.hole(binds[n], ty, env) for n, ty in zip(names, tys)]
+                env, nodes = self.hoist_holes([binds[n] for n in names], env)
+                args = [self.hole(nd, ty, env) for nd, ty in zip(nodes, tys)]
                 if resume is None and target is not None:
                     raise Unsupported(f"the value of `yield {ast.unparse(req)[:40]}` is used")
                 if resume == "obj" and (target is None or target not in self.spec.objects):
